@@ -19,6 +19,22 @@ type authGuard struct {
 
 // isReqAuthority: v is (a load of) req.Authority where req is the handler's request parameter.
 func isReqField(v ssa.Value, req *ssa.Parameter, field string) bool {
+	// loss-free decodings of the textual field: bech32 -> account bytes (a truncating conversion such as
+	// common.BytesToAddress is deliberately not looked through)
+	for i := 0; i < 3; i++ {
+		v = stripConv(v)
+		if ex, ok := v.(*ssa.Extract); ok && ex.Index == 0 {
+			if c, ok := ex.Tuple.(*ssa.Call); ok && callName(c) == "AccAddressFromBech32" && len(c.Call.Args) == 1 {
+				v = c.Call.Args[0]
+				continue
+			}
+		}
+		if c, ok := v.(*ssa.Call); ok && callName(c) == "MustAccAddressFromBech32" && len(c.Call.Args) == 1 {
+			v = c.Call.Args[0]
+			continue
+		}
+		break
+	}
 	if u, ok := v.(*ssa.UnOp); ok {
 		v = u.X
 	}
